@@ -66,6 +66,8 @@ def install(s: Any, obj: Any, doc: str) -> None:
     obj.parsed_docstring = None
     obj.parsed_summary = None
     obj._linker = None
+    for c in obj.contents.values():
+        c.parsed_summary = None         # what an earlier docstring's fields left on the members
     for sec in list(s.parse_errors):
         s.parse_errors[sec].discard(obj.fullName())
     del s.messages[:]
@@ -199,6 +201,18 @@ def judge_doc(s: Any, fmt: str, pt: bool, kind: str, doc: str, control: str, res
     # no other object is affected
     from pydoctor import epydoc2stan
     from pydoctor.stanutils import flatten
+    if kind in ('class', 'module'):
+        # ... starting with the owner itself: rendering the summaries of the variables its fields document must leave the owner's summary as it was
+        try:
+            for child in list(obj.contents.values()):
+                flatten(epydoc2stan.format_summary(child))
+            hs2 = flatten(epydoc2stan.format_summary(obj))
+        except BaseException as e:  # noqa
+            if type(e).__name__ == 'JobTimeout':
+                raise
+            hs2 = f'raises {type(e).__name__}'
+        if hs2 != hs:
+            res['violations'].append(core.violation(f'owner-summary-changed-by-member/{fmt}', f'{fmt}: after the summaries of the members documented by fields of {doc!r} were rendered, the summary of the {kind} changed from {hs!r} to {hs2!r}', case))
     sib.parsed_docstring = None
     sib.parsed_summary = None
     now = flatten(epydoc2stan.format_docstring(sib)) + flatten(epydoc2stan.format_summary(sib))
@@ -349,6 +363,8 @@ def jobs(tier: str) -> Iterable[Tuple[str, Any]]:
         for t0 in T16:
             yield ('tokens<=3:T16:summary-first', ('tok', fmt, False, 'function', 3, t0, 'T16', 'summary-first'))
     for fmt in FMTS:
+        yield ('owner-field-composites', ('composite', fmt))
+    for fmt in FMTS:
         for pt in (False, True):
             yield ('faults', ('fault', fmt, pt))
     if tier == 'thorough':
@@ -369,6 +385,17 @@ def _alarm(signum: int, frame: Any) -> None:
 
 def run_job(job: Any, tier: str) -> Dict[str, Any]:
     res = core.result()
+    if job[0] == 'composite':
+        # a sound description followed by a field that documents a variable, whose body is each token in turn (class and module owners)
+        fmt = job[1]
+        s = mk(fmt, False)
+        control = control_of(s)
+        tag = {'epytext': '@ivar v:', 'restructuredtext': ':ivar v:', 'google': 'Attributes:\n    v:', 'numpy': 'Attributes\n----------\nv\n   ', 'plaintext': '@ivar v:'}[fmt]
+        for kind in ('class', 'module'):
+            for tok in T:
+                for order in ('body-first', 'summary-first'):
+                    judge_doc(s, fmt, False, kind, f'Sound summary w.\n\n{tag} {tok} w', control, res, order)
+        return res
     if job[0] == 'tok':
         _, fmt, pt, kind, n, first, alpha = job[:7]
         order = job[7] if len(job) > 7 else 'body-first'
